@@ -29,4 +29,8 @@ Exports == Len(ExportsOf(c)) <= Cardinality({k \in 1..Len(c.script) : c.script[k
 RECURSIVE SumAmts(_)
 SumAmts(ins) == IF ins = <<>> THEN <<>> ELSE BAdd(IF Head(ins).k = "x" THEN Head(ins).amt ELSE <<>>, SumAmts(Tail(ins)))
 Credit == BEq(CreditX(c), SumAmts(c.inputs))
+\* the transfer / checkpoint cases only contain payable transfers, and the collapse never returns more than it started with
+Payable == c.kind = "A" => XferOK(c, ArgOf)
+Collapse == c.kind = "A" => LET v == XView(c) tot(w) == BAdd(w.bal, BSum([q \in 1..Len(w.xf) |-> w.xf[q][3]])) IN
+              BEq(tot(v.x), tot(v.y)) /\ Len(v.y.xf) <= Len(v.x.xf)
 =============================================================================
